@@ -766,8 +766,11 @@ def _emit_fn(unit, fs, it, out, rules):
         out.add("}\n\n")
     else:
         out.add(vis + out_text + "\n\n", origin)
+    # names this function calls (identifier directly followed by `(`): the in-unit call graph for "whose contract does a proof rely on"
+    calls = sorted({toks[q].text for q in range(bo, bc) if toks[q].kind == "ident" and toks[q + 1].text == "("}) if not fs.external else []
     return {"qual": fs.qual, "file": it.path, "line": it.line, "end_line": it.end_line,
-            "obligations": fs.obligations, "external": fs.external, "has_contract": bool(fs.spec.strip())}
+            "obligations": fs.obligations, "external": fs.external, "has_contract": bool(fs.spec.strip()),
+            "calls": calls, "contract_from": getattr(fs, "contract_from", None)}
 
 
 def _stmt_start(toks, i, lo, qual, anchor):
